@@ -330,8 +330,15 @@ func (r *renderer) call(c *Call) string {
 
 func (r *renderer) list(open, close string, n int, el func(int) string) string {
 	if n == 0 {
-		if r.l.Pick("empty-pad", 8) == 7 {
+		switch r.l.Pick("empty-pad", 10) {
+		case 7:
 			return open + " " + close
+		case 8: // an empty literal over two lines, holding nothing but a comment
+			r.St.Comments++
+			return open + " // nothing yet\n" + strings.Repeat("    ", r.depth) + close
+		case 9:
+			r.St.Comments++
+			return open + "\n" + strings.Repeat("    ", r.depth+1) + "// nothing yet\n" + strings.Repeat("    ", r.depth) + close
 		}
 		return open + close
 	}
